@@ -38,7 +38,7 @@ COMPONENTS = {
              'stalling client', 'scripted stalling SMTP/HTTP downstream',
              'SimSubprocess'],
 }
-BUDGET = {'quick': 6000, 'thorough': 400000}
+BUDGET = {'quick': 30000, 'thorough': 400000}
 PROBES = ['server:after-banner', 'server:after-command', 'server:mid-line',
           'server:in-data', 'server:after-eod', 'server:auth-continuation',
           'server:tls-handshake', 'server:trickle', 'client:connect',
